@@ -123,6 +123,7 @@ type Run struct {
 	stubState map[string]interface{}
 
 	killed      bool
+	reverseMaps bool
 	preempts    int
 	aliases     map[*Agg][]aliasRange
 	decReg      map[*smt.Term]decEntry
